@@ -342,7 +342,9 @@ class CSSSerializer(object):
         if self.prefs.defaultAtKeyword:
             return rule.atkeyword  # default
         else:
-            return rule._keyword
+            # (rules built by the API and most rules read by the parser
+            # have no source keyword)
+            return getattr(rule, '_keyword', None) or rule.atkeyword
 
     def _indentblock(self, text, level):
         """
